@@ -19,6 +19,8 @@ class AMol:
         self.adj = {}       # node -> [nbr nodes]
         self.order = {}     # frozenset({a,b}) -> 1 | 2 | 3 | 1.5
         self.mark = {}      # (a, b) -> '/' | '\\'   direction seen walking a -> b (stored once per bond)
+        self.contra = set() # frozenset bonds: if written as a ring closure with marks at both digits, write the SAME
+                            # character at both ends (the two ends then contradict each other; accepted by readers)
         self.free = []      # remaining valence budget (generation only)
 
     def add_atom(self, el, budget):
@@ -172,6 +174,9 @@ def gen_molecule(ch, max_atoms=20, stereo=50, brackets=30, aromatic=20, fragment
                         if z != q and m.order[frozenset((p, z))] == 1 and ch.bool(60):
                             if (p, z) not in m.mark and (z, p) not in m.mark:
                                 m.mark[(p, z)] = ch.pick("/\\")
+        for (x, y) in list(m.mark):
+            if ch.bool(25):
+                m.contra.add(frozenset((x, y)))
         if ch.bool(stereo // 3):
             keys = [k for k, o in m.order.items() if o == 1]
             for _ in range(ch.int(1, 3)):
@@ -342,6 +347,7 @@ def write(m, ch, ch_atoms=None, variants=True, label_style=None):
     label_of = {}
     label_txt = {}
     where_sym = {}
+    contra_written = {}
     pieces = []
     nbr_written = {}
     tags = {}
@@ -416,6 +422,11 @@ def write(m, ch, ch_atoms=None, variants=True, label_style=None):
                 w = where_sym.setdefault(key, ch.pick(["open", "close", "both"]))
                 if w == "both" or (w == "open") == opening:
                     bc = mk
+                if w == "both" and key in m.contra:
+                    if opening:
+                        contra_written[key] = mk
+                    else:
+                        bc = contra_written[key]      # same character as at the opening digit
             elif both_arom:
                 w = where_sym.setdefault(key, ch.pick(["open", "close", "both"]))
                 if w == "both" or (w == "open") == opening:
@@ -492,11 +503,16 @@ def write(m, ch, ch_atoms=None, variants=True, label_style=None):
         i, j = sorted((index_of[a], index_of[b]))
         bonds.append([i, j, o])
     marks = []
+    marks_raw = []      # ring bonds written with the same character at both digits: [i, j, mark at i, mark at j]
     for (a, b), c in m.mark.items():
         i, j = index_of[a], index_of[b]
+        key = frozenset((a, b))
+        if key in contra_written:
+            marks_raw.append([min(i, j), max(i, j), contra_written[key], contra_written[key]])
+            continue
         marks.append([i, j, c] if i < j else [j, i, flip(c)])
     return dict(smiles=smiles, order=all_order,
-                truth=dict(atoms=atoms, bonds=sorted(bonds), marks=sorted(marks),
+                truth=dict(atoms=atoms, bonds=sorted(bonds), marks=sorted(marks), marks_raw=sorted(marks_raw),
                            nbrs={str(i): v for i, v in nbr_written.items()},
                            ring_closures=len(closing), fragments=len(roots)))
 
@@ -541,9 +557,12 @@ def selftest():
             assert (b["el"], b["iso"], b["h"], b["charge"], b["chir"], b["arom"]) == \
                 (a["el"], a["iso"], a["h"], a["charge"], a["chir"], a["arom"]), (w["smiles"], i, a, b)
         assert sorted([i, j, o] for (i, j), o in r.bonds.items()) == tr["bonds"], (w["smiles"], tr["bonds"], r.bonds)
-        md = {k: v[0] for k, v in refsmiles.mark_dirs(r).items()}
+        mdall = refsmiles.mark_dirs(r)
+        md = {k: v[0] for k, v in mdall.items() if v[1] is None}
         want = {(i, j): frozenset([c]) for i, j, c in tr["marks"]}
         assert md == want, (w["smiles"], md, want)
+        raw = {k: v[1] for k, v in mdall.items() if v[1] is not None}
+        assert raw == {(i, j): (a, b) for i, j, a, b in tr["marks_raw"]}, (w["smiles"], raw, tr["marks_raw"])
         for k, nb in tr["nbrs"].items():
             assert r.nbrs[int(k)] == nb, (w["smiles"], k, nb, r.nbrs[int(k)])
             n_chiral += 1
